@@ -502,13 +502,13 @@ class Run:
         return out
 
     def mop(self, op, check=True):
-        if not self.w.fragment: return
+        if not self.w.fragment or self.abandoned: return
         self.model_ops.append(op)
         self.model_checks.append(self.snapshot() if check else None)
 
     def note_load(self, e, pk, found, had):
         """an E[pk] happened on the real code: the model's `load` (cache first, else auto-flush + SELECT)"""
-        if not self.w.fragment: return
+        if not self.w.fragment or self.abandoned: return
         self.sync_seeds(exclude={(e, pk)})
         self.model_ops.append({'k': 'load', 'key': [e, pk]})
         snap = self.snapshot(); snap['expect_out'] = 'found' if found else 'notFound'
@@ -517,7 +517,7 @@ class Run:
 
     def sync_seeds(self, exclude=()):
         """objects that came into the real cache as a side effect (collection loads, queries, seeds of foreign keys)"""
-        if not self.w.fragment: return
+        if not self.w.fragment or self.abandoned: return
         now = self.real_indexed()
         for k in sorted(now - self.prev_index):
             if k in exclude: continue
@@ -610,6 +610,9 @@ class Run:
                         for it in (getattr(sd, name) or ()):
                             x, y = (obj, it) if not side else (it, obj)
                             snap[name].add((i, (w.classes.index(type(x)), x._pkval_), (w.classes.index(type(y)), y._pkval_), side))
+        snap['txn'] = self.txn_view()
+        if self.sh.logical() is not None and self.committed.logical() is not None:
+            snap['shadow'] = (_db_of_shadow(self, self.sh), _db_of_shadow(self, self.committed))
         return snap
 
     def txn_view(self):
@@ -837,6 +840,8 @@ class Run:
             except ShadowError as e:
                 self.count('shadow-refuses-accepted-call:%s' % e); self.stop = True; return
             self.learn_pks()
+            dup = k == 'create' and any(oid2 != op['oid'] and o2['alive'] and o2['ent'] == op['e'] and o2['pk'] is not None
+                                        and o2['pk'] == self.sh.objs[op['oid']]['pk'] for oid2, o2 in self.sh.objs.items())
             if self.w.fragment and not self.abandoned:
                 forced = set()
                 if k == 'set_scalar': forced.add((op['o'], op['a']))
@@ -848,6 +853,12 @@ class Run:
                     self.model_ops.append(m); self.model_checks.append(None); self.count('model-op:' + m['k'])
                 if mops: self.model_checks[-1] = self.snapshot()
                 self.prev_index = self.real_indexed()
+            if dup:
+                # ill-formed program: a second object under a primary key the program still holds (the first one is not in
+                # the cache, so the constructor could not refuse).  The only acceptable continuation is a loud failure of the flush.
+                self.count('duplicate-primary-key-accepted-by-constructor')
+                self.boundary('flush', expect_error=True)
+                return
         else:
             # a refused call changes nothing (C13): the shadow is not told; the model gets no operation
             if self.w.fragment and not self.abandoned:
@@ -855,7 +866,7 @@ class Run:
                 self.sync_seeds()
         self.last_coll_op = (op.get('o'), tuple(op['key']) if 'key' in op else None, k) if k.startswith('coll_') else getattr(self, 'last_coll_op', None)
         if k.startswith('coll_'): self.coll_hist.setdefault((op['o'], tuple(op['key'])), []).append(k)
-        if self.do_reads: self.reads()
+        if self.do_reads and self.rrng.random() < 0.55: self.reads()
 
     abandoned = False
     def model_abandon(self, why):
@@ -866,7 +877,7 @@ class Run:
         return any(INS.match(s) or INS_DEFAULT.match(s) or UPD.match(s) or DELS.match(s) for s, _ in self.w.log[mark:])
 
     # ---------- flush / commit / rollback / end of session + the C09 oracle
-    def boundary(self, k):
+    def boundary(self, k, expect_error=False):
         mark = self.mark()
         err = None
         try:
@@ -878,6 +889,10 @@ class Run:
         except Exception as e:
             err = type(e).__name__
         self.count('boundary:%s:%s' % (k, err or 'ok'))
+        if expect_error and err is None:
+            return self.finding('C09', 'duplicate-primary-key-flushed-silently', 'two objects with the same primary key were flushed without an error',
+                                observed='flush() returned', expected='TransactionIntegrityError')
+        if err == 'UnresolvableCyclicDependency': self.model_abandon('reference cycle among new objects (subject of C16)')
         mk = {'flush': 'flush', 'commit': 'commit', 'rollback': 'rollback', 'end_ok': 'endOk', 'end_err': 'endErr'}[k]
         if err is not None and k in ('flush',):
             # the exception propagates out of the db_session
@@ -904,7 +919,7 @@ class Run:
             self.model_checks.append(snap)
             self.prev_index = self.real_indexed()
         if not self.in_session: self.enter()
-        if self.do_reads and not self.stop: self.reads()
+        if self.do_reads and not self.stop and self.rrng.random() < 0.55: self.reads()
 
     epoch = 0
     def after_abort(self, why):
@@ -1026,7 +1041,13 @@ class Run:
                     coll = getattr(obj, name)
                     if f == 'iter': self_rd('coll-iter', ck, lambda: sorted(self.oid_of(x) for x in coll), exp)
                     elif f == 'len': self_rd('coll-len', ck, lambda: len(coll), len(exp))
-                    elif f == 'count': self_rd('coll-count', ck, lambda: coll.count(), len(exp))
+                    elif f == 'count':
+                        # root cause, read off the real SetData before the call: pending additions / removals that a flush has already written
+                        sd = obj._vals_.get(w.relattr[key]) if obj._vals_ is not None else None
+                        c = self.cache()
+                        stale = (sd is not None and (sd.added or sd.removed) and kind in ('m2m', 'symm') and c is not None
+                                 and obj not in (c.modified_collections.get(w.relattr[key]) or ()))
+                        self_rd('coll-count', 'm2m:pending-items-kept-after-flush' if stale else ck, lambda: coll.count(), len(exp))
                     elif f == 'is_empty': self_rd('coll-is_empty', ck, lambda: coll.is_empty(), not exp)
                     elif f == 'bool': self_rd('coll-bool', ck, lambda: bool(coll), bool(exp))
                     elif f == 'select': self_rd('coll-select', ck, lambda: sorted(self.oid_of(x) for x in coll.select()[:]), exp, params=[obj])
@@ -1168,3 +1189,181 @@ class Run:
 
 def norm_pk(x):
     return list(x) if isinstance(x, tuple) else x
+
+
+# ---------------------------------------------------------------- correspondence with the Lean model
+
+def _jkey(k):
+    return (k[0], k[1])
+
+
+def _db_of_model(d):
+    rows = {}
+    for key, cells in d['rows']: rows[_jkey(key)] = [json.dumps(c, sort_keys=True) for c in cells]
+    links = {(l[0], _jkey(l[1]), _jkey(l[2])) for l in d['links']}
+    return rows, links
+
+
+def _db_of_real(run, raw):
+    """raw view (read_db) in the model's vocabulary"""
+    w = run.w; rows = {}
+    for e, d in raw['rows'].items():
+        for pk, vals in d.items():
+            cells = []
+            for cs in w.cols[e]:
+                v = vals[cs['name']]
+                if v is not None and cs['kind'] == 'ref': v = {'ref': [cs['target'], v]}
+                cells.append(json.dumps(v, sort_keys=True))
+            rows[(e, pk)] = cells
+    links = set()
+    for i, s in raw['links'].items():
+        ea = w.sides[(i, False)]['ent']; eb = w.sides[w.rev((i, False))]['ent']
+        for x, y in s: links.add((i, (ea, x), (eb, y)))
+    return rows, links
+
+
+def _db_of_shadow(run, sh):
+    w = run.w; rows = {}
+    for oid, o in sh.objs.items():
+        if o['alive']: rows[(o['ent'], o['pk'])] = [json.dumps(c, sort_keys=True) for c in run.cells_of(sh, oid)]
+    return rows, run.links_of(sh)
+
+
+def compare_model(run, ctx, out):
+    """compare the recorded abstraction of the real session with the model's states; returns the first difference or None"""
+    steps = out.get('steps')
+    if steps is None: return {'what': 'driver error', 'model': out, 'impl': None, 'at': 0}
+    if len(steps) != len(run.model_ops): return {'what': 'driver returned a different number of steps', 'model': len(steps), 'impl': len(run.model_ops), 'at': 0}
+    wellformed = True
+    for i, (mo, st, snap) in enumerate(zip(run.model_ops, steps, run.model_checks)):
+        if not st.get('valid', True):
+            ctx.count('model:create-under-a-key-in-use'); wellformed = False
+        if snap is None: continue
+        def diff(what, model, impl): return {'what': what, 'model': model, 'impl': impl, 'at': i, 'model_op': mo}
+        if 'expect_out' in snap:
+            mout = st['out']
+            mout = 'dbError' if isinstance(mout, str) and mout.startswith('dbError') else mout
+            if mout != snap['expect_out']: return diff('outcome of %s differs' % mo['k'], st['out'], snap['expect_out'])
+            ctx.count('tie:outcome:%s:%s' % (mo['k'], mout))
+        mc = {_jkey(k): {'status': s, 'vals': v, 'wbits': wb} for k, s, v, wb in st['cache']}
+        indexed = {k for k, v in mc.items() if v['status'] not in ('deleted', 'cancelled')}
+        rindexed = {k for k, v in snap['cache'].items() if v['indexed']}
+        if not snap['alive']:
+            if indexed: return diff('the real cache is closed, the model still holds objects', sorted(indexed), [])
+            continue
+        if indexed != rindexed: return diff('objects in the primary-key index differ', sorted(indexed), sorted(rindexed))
+        for k in sorted(rindexed):
+            r = snap['cache'][k]; m = mc[k]
+            if r['status'] != m['status']: return diff('status of %s differs' % (k,), m['status'], r['status'])
+            if r['status'] in ('marked_to_delete', 'deleted', 'cancelled'): continue     # what a dying object holds is never written
+            if sorted(r['wbits']) != sorted(m['wbits']) and r['status'] != 'created':
+                return diff('written columns of %s differ' % (k,), sorted(m['wbits']), sorted(r['wbits']))
+            for ci, v in r['vals'].items():
+                if json.dumps(v, sort_keys=True) != json.dumps(m['vals'][ci], sort_keys=True):
+                    return diff('value of column %d of %s differs' % (ci, k), m['vals'][ci], v)
+            ctx.count('tie:object-states-compared')
+        mq = sorted(_jkey(k) for k in st['queue'] if k is not None); rq = sorted(k for k in snap['queue'] if k is not None)
+        if mq != rq: return diff('objects_to_save differs', mq, rq)
+        for name in ('added', 'removed'):
+            m = {(l[0], _jkey(l[1]), _jkey(l[2])) for l in st[name]}
+            sides = {}
+            for (ri, x, y, side) in snap[name]: sides.setdefault(side, set()).add((ri, x, y))
+            r0 = sides.get(False, set())
+            if m != r0: return diff('pending %s link pairs differ' % name, sorted(m), sorted(r0))
+        if bool(st['modified']) != bool(snap['modified']): return diff('cache.modified differs', st['modified'], snap['modified'])
+        if 'stmts' in snap:
+            ms = sorted(json.dumps(x, sort_keys=True) for x in st['writes'])
+            rs_ = sorted(json.dumps(x, sort_keys=True) for x in snap['stmts'])
+            for x in st['writes']:
+                if x[0] == 'update': x[2].sort(key=lambda c: c[0])
+            ms = sorted(json.dumps(x, sort_keys=True) for x in st['writes'])
+            if ms != rs_: return diff('statements of the flush differ', ms, rs_)
+            ctx.count('tie:flush-statement-lists-compared'); ctx.count('tie:statements', len(ms))
+        if 'committed' in snap:
+            if _db_of_model(st['committed']) != _db_of_real(run, snap['committed']):
+                return diff('committed database differs', st['committed'], repr(snap['committed']))
+            ctx.count('tie:committed-databases-compared')
+        if snap.get('txn') is not None:
+            if _db_of_model(st['txn']) != _db_of_real(run, snap['txn']):
+                return diff('transaction view differs', st['txn'], repr(snap['txn']))
+            ctx.count('tie:transaction-views-compared')
+        if snap.get('shadow') is not None and wellformed:
+            sw, sc = snap['shadow']
+            if _db_of_model(st['spec_working']) != sw: return diff('Lean reference machine (working) differs from the Python shadow', st['spec_working'], repr(sw))
+            if _db_of_model(st['spec_committed']) != sc: return diff('Lean reference machine (committed) differs from the Python shadow', st['spec_committed'], repr(sc))
+            if _db_of_model(st['view']) != sw: return diff('abs of the model state differs from the shadow', st['view'], repr(sw))
+            ctx.count('tie:reference-machine-vs-shadow')
+    return None
+
+
+# ---------------------------------------------------------------- exploration shared by the two engines
+
+def shrink(schema, ops, prop, key, budget=60):
+    """greedy: drop calls while a finding with the same key remains"""
+    def has(cand):
+        r = Run(schema, ops=cand)
+        try:
+            r.run()
+            return [f for f in r.findings if f['prop'] == prop and f['key'] == key]
+        except Exception:
+            return []
+        finally: r.close()
+    if not has(ops): return ops, None
+    changed = True; n = 0
+    while changed and n < budget:
+        changed = False
+        for i in range(len(ops) - 1, -1, -1):
+            n += 1
+            if n >= budget: break
+            cand = ops[:i] + ops[i + 1:]
+            if has(cand): ops = cand; changed = True
+    f = has(ops)
+    return ops, (f[0] if f else None)
+
+
+def explore(ctx, prop, nhist, nops):
+    """random schemas x random histories; oracles of both properties run, only `prop`'s findings are reported by this engine"""
+    rng = ctx.rng
+    batch = []
+    seen = set()
+    for h in range(nhist):
+        fragment = rng.random() < 0.5
+        schema = gen_schema(rng, fragment)
+        try: run = Run(schema, rng=rng, nops=nops, ctx=ctx)
+        except Exception as e:
+            ctx.count('schema-rejected:' + type(e).__name__); continue
+        try:
+            for e in schema['ents']: ctx.count('schema:pk:' + e['pk'])
+            for r in schema['rels']: ctx.count('schema:rel:' + r['kind'])
+            ctx.count('schema:in-model-fragment' if run.w.fragment else 'schema:oracle-only')
+            run.run()
+            ctx.case({'schema': schema, 'nops': len(run.ops), 'h': h}, nontrivial=True, kind='history')
+            for i, op in enumerate(run.ops): ctx.case({'h': h, 'i': i, 'op': {k: v for k, v in op.items() if k != 'rs'}}, nontrivial=True, kind='call')
+            for f in run.findings:
+                if f['prop'] != prop:
+                    ctx.count('other-property-finding:%s:%s' % (f['prop'], f['key'])); continue
+                if f['key'] in seen: ctx.count('finding-repeated:' + f['key']); continue
+                seen.add(f['key'])
+                ops, f2 = shrink(schema, run.ops[:f['at'] + 1], prop, f['key'])
+                f2 = f2 or f
+                ctx.violation(f2['what'], {'schema': schema, 'ops': ops}, observed=f2['observed'], expected=f2['expected'], key=f2['key'])
+            if run.w.fragment and run.model_ops and ctx.driver.ok:
+                batch.append((schema, run.ops, run.model_ops, run.model_checks, run))
+                run.keep = True
+        finally:
+            if not getattr(run, 'keep', False): run.close()
+            else:
+                try: run.w.db.disconnect()
+                except Exception: pass
+    if batch and ctx.driver.ok:
+        outs = ctx.driver('C09', [{'op': 'run', 'ncols': [len(c) for c in run.w.cols], 'ops': mops} for _, _, mops, _, run in batch])
+        for (schema, ops, mops, checks, run), out in zip(batch, outs):
+            if 'unknown property' in str(out.get('driver_error')): raise RuntimeError('the shared driver executable was replaced while running: %r' % out)
+            d = compare_model(run, ctx, out)
+            ctx.count('tie:histories-compared')
+            if d is not None:
+                ctx.divergence(d['what'], {'schema': schema, 'ops': ops, 'model_ops': mops[:d['at'] + 1]}, model=d['model'], impl=d['impl'])
+            run.close()
+    elif batch:
+        for b in batch: b[4].close()
+    if not ctx.driver.ok: ctx.note('driver unavailable: the correspondence part is skipped, the oracles still run')
